@@ -137,9 +137,17 @@ func runCase(c caseT) (viol []string, forced bool) {
 	bad := func(f string, a ...any) { viol = append(viol, fmt.Sprintf(f, a...)) }
 	g := gochannel.NewGoChannel(gochannel.Config{OutputChannelBuffer: int64(c.Cfg.Buffer), Persistent: c.Cfg.Persistent, BlockPublishUntilSubscriberAck: c.Cfg.Blocking}, watermill.NopLogger{})
 	var sub message.Subscriber = g
+	// half of the entries apply ONE decorator value several times (what a Router does for its handlers),
+	// the other half a fresh decorator value per layer
+	sharedDec := message.MessageTransformSubscriberDecorator(func(m *message.Message) {})
+	useShared := (len(c.A)+len(c.B)+len(c.Consumer)+c.Cfg.Buffer)%2 == 0
 	for i := 0; i < c.Depth; i++ {
 		var err error
-		sub, err = message.MessageTransformSubscriberDecorator(func(m *message.Message) {})(sub)
+		dec := sharedDec
+		if !useShared {
+			dec = message.MessageTransformSubscriberDecorator(func(m *message.Message) {})
+		}
+		sub, err = dec(sub)
 		if err != nil {
 			return []string{"harness: decorator: " + err.Error()}, false
 		}
